@@ -196,6 +196,8 @@ def g_recipient(ch, label="rcp", depth=0):
     if depth < 2 and ch.choose(label + ".nested", [False, True]):
         n = ch.choose(label + ".nn", [1, 2])
         r["recipients"] = [g_recipient(ch, f"{label}.r{i}", depth + 1) for i in range(n)]
+    elif ch.choose(label + ".empty-list", [False, True]):
+        r["recipients"] = []            # present and empty: a fourth element that is an empty array
     return r
 
 
